@@ -70,10 +70,11 @@ def plan13(ctx):
             continue
         R = "High" if m["rate"] == "high" else "Low"
         enc = [e.replace("{R}", R) for e in RATE_ENC]
-        q = (m["rate"], m["k"], m["r"]) in quick_cfg
+        # (3,3)-class configurations need > 15 min of SAT time for the 3-run additivity query: thorough tier only
+        q = (m["rate"], m["k"], m["r"]) in quick_cfg and min(m["k"], m["r"]) < 3
         hs.append(Harness(f"gen::c02g::{m['name']}", "C13",
                           f"real {R}RateEncoder<SpecEngine> ({m['k']},{m['r']}): enc(a) ^ enc(b) == enc(a^b) for fully symbolic a, b",
-                          encodes=enc, bounds=f"2-byte shards, config ({m['k']},{m['r']}), unwind 66", timeout=1500, mem_gb=8,
+                          encodes=enc, bounds=f"2-byte shards, config ({m['k']},{m['r']}), unwind 66", timeout=3600, mem_gb=8,
                           symbolic="two full data sets (2*k 16-bit symbols)", tiers=("quick", "thorough") if q else ("thorough",)))
     # the real NoSimd engine's own additivity (shared with C15): a data-dependent shortcut in a butterfly shows here
     from . import c15 as c15mod
